@@ -41,7 +41,7 @@ class C19(Check):
             "with fresh data sets inside, partly outside or entirely outside the learned range, with or without unlabelled samples. A state "
             "is (learning configuration class, sequence of call kinds with the numbers of classified samples); distinct_nontrivial counts "
             "distinct states after a call")
-    expected_probes = ["user_specified_range", "call_in_range", "call_partly_out", "all_out_refused", "unlabelled_set_aside", "test_data", "reclassified_earlier_data"]
+    expected_probes = ["user_specified_range", "call_in_range", "call_partly_out", "all_out_refused", "unlabelled_set_aside", "test_data", "reclassified_earlier_data", "own_scaled_piece"]
     assumptions = ["ties between maximal densities accept any maximiser (tolerance 1e-12 relative on the densities)",
                    "the in-range test is the library's documented one on the scaled coordinates: 0.0049 <= s <= 0.9951"]
 
@@ -63,7 +63,7 @@ class C19(Check):
         o = stream(rk, "ops")
         ops = []
         for j in range(o.randint(1, 5)):
-            kind = o.choice(["call", "call", "test", "test", "evaluate", "recall"])
+            kind = o.choice(["call", "call", "test", "test", "evaluate", "recall", "own"])
             where = o.choice(["in", "in", "partly", "out", "unl"])
             ops.append([kind, where, o.randrange(10 ** 6), o.choice([5, 10, 20])])
         return {"config": cfg, "ops": ops}
@@ -187,6 +187,52 @@ class C19(Check):
                     ctx.violate("earlier_classes_unchanged", sig, "re-evaluating earlier data gives %s, before %s" % (got.tolist(), ch.tolist()))
                 ctx.probe("reclassified_earlier_data"); ctx.ok("earlier_classes_unchanged")
                 trace.append(("recall", len(got)))
+            elif kind == "own":
+                # data that already carries the learning scaling: (a deep copy of) the learning / testing piece the object hands
+                # out itself. Its samples sit at their positions in the learning scaling and must be classified there.
+                src = cl.get_testing_data() if dseed % 2 else cl.get_learning_data()
+                if src.is_empty():
+                    src = cl.get_learning_data()
+                piece = copy.deepcopy(src)
+                Xs = np.asarray(src.get_data()[0], dtype=float).reshape(-1, c["dim"]).copy()
+                ys = np.array(src.get_data()[1]).astype(int).copy()
+                via = "test_data" if (dseed // 2) % 2 else "__call__"
+                before = np.array(cl.get_calculated_classes_testset()).copy()
+                try:
+                    res = cl(piece, print_removed=False) if via == "__call__" else cl.test_data(piece, print_output=False, print_removed=False)
+                except ValueError as e:
+                    # a piece whose scaling attributes no longer equal the internal ones (the testing piece after test_data has
+                    # concatenated differently scaled data onto it) is refused by design; the refusal must leave the bookkeeping alone
+                    if "scaling doesn't match" not in str(e):
+                        raise
+                    if not np.array_equal(np.array(cl.get_calculated_classes_testset()), before):
+                        ctx.violate("refused_test_leaves_bookkeeping", sig, "a refused call on an already scaled piece changed the recorded classes")
+                    ctx.fault("invalid_request"); ctx.probe("own_piece_refused")
+                    trace.append(("own_refused", 0))
+                    continue
+                ctx.probe("own_scaled_piece")
+                if via == "__call__":
+                    Xr, cr = res.get_data()
+                    Xr = np.asarray(Xr, dtype=float).reshape(-1, c["dim"])
+                    if len(cr) != len(Xs) or not np.allclose(Xr, Xs, rtol=0, atol=1e-9):
+                        ctx.violate("already_scaled_data_kept_in_place", dict(sig, call=via), "__call__ on a copy of the object's own %d scaled samples returned %d samples / moved positions (max shift %s)" % (
+                            len(Xs), len(cr), float(np.max(np.abs(Xr - Xs))) if len(cr) == len(Xs) else None))
+                    check_classes(np.array(cr).astype(int), Xs, "__call__ on own scaled piece")
+                    trace.append(("own_call", len(cr)))
+                else:
+                    use = ys >= 0
+                    after = np.array(cl.get_calculated_classes_testset())
+                    if len(after) < len(before) or not np.array_equal(after[:len(before)], before):
+                        ctx.violate("earlier_classes_unchanged", sig, "test_data changed the classes recorded for earlier data")
+                    got = after[len(before):].astype(int)
+                    if len(got) != int(use.sum()):
+                        ctx.violate("already_scaled_data_kept_in_place", dict(sig, call=via), "test_data on a copy of the object's own scaled piece recorded %d classes for %d labelled samples" % (len(got), int(use.sum())))
+                    check_classes(got, Xs[use], "test_data on own scaled piece")
+                    wrong, tot = int(np.sum(got != ys[use])), int(use.sum())
+                    if res["Wrong mappings"] != wrong or res["Total mappings"] != tot or (tot and abs(res["Percentage correct"] - (1.0 - wrong / tot)) > 1e-12):
+                        ctx.violate("summary_consistent", sig, "test_data (own scaled piece) summary %s, recomputed: wrong %d of %d" % (
+                            {k2: res[k2] for k2 in ("Wrong mappings", "Total mappings", "Percentage correct")}, wrong, tot))
+                    trace.append(("own_test", len(got)))
             elif kind == "call":
                 ds = D.DataSet((Xt.copy(), yt.copy()))
                 try:
